@@ -218,13 +218,32 @@ def run_unit(unit, rec):
                     data = pre + img + suf
                     check(rec, data, len(pre), len(pre) + len(img), ("pe_file",), img,
                           {"kind": "pe", "nsec": nsec, "pre": pre, "suf": suf}, profile=None)
-        rec.sample({"family": "pe", "sections": "1..3"})
+        # an image carried inside another image's section data (dropper), two images back to back, an image in another image's overlay:
+        # every one of them is an embedded, structurally valid PE file and is reported with exactly its own span
+        for inner_spec in (1, 2, "bss"):
+            inner = _pe_image(inner_spec)
+            for at in (0, 1, 0x10, 0x1FF, 0x200, 0x333):
+                outer, off = pegen.pe_holding(inner, at)
+                for pre in (b"", b"xy "):
+                    data = pre + outer + b" end"
+                    w = {"kind": "pe-nested", "inner": inner_spec, "at": at, "pre": pre}
+                    check(rec, data, len(pre), len(pre) + len(outer), ("pe_file",), outer, dict(w, which="outer"))
+                    check(rec, data, len(pre) + off, len(pre) + off + len(inner), ("pe_file",), inner, dict(w, which="inner"), sig_extra="|inside-another-image")
+            other = _pe_image(2)
+            for gap in (b"", b"\x00", b" -- "):
+                data = b"a " + inner + gap + other + b" z"
+                w = {"kind": "pe-pair", "inner": inner_spec, "gap": gap}
+                check(rec, data, 2, 2 + len(inner), ("pe_file",), inner, dict(w, which="first"))
+                check(rec, data, 2 + len(inner) + len(gap), 2 + len(inner) + len(gap) + len(other), ("pe_file",), other, dict(w, which="second"), sig_extra="|after-another-image")
+        rec.sample({"family": "pe", "sections": "1..3", "nested": "image inside another image's section at 6 offsets; images back to back"})
 
 
 def replay(w, rec):
     if w.get("kind") == "inst":
         a, b = w["span"]
         check(rec, w["data"], a, b, tuple(w["types"]), w["value"], w, sig_extra="")
+    elif w.get("kind") in ("pe-nested", "pe-pair"):
+        run_unit(("pe",), rec)
     elif w.get("kind") == "pe":
         img = _pe_image(w["nsec"])
         data = w["pre"] + img + w["suf"]
